@@ -82,6 +82,7 @@ pub fn check_text(ctx: &mut Ctx, s: &str, hash_it: bool) {
         }
         Ok(None) => {}
     }
+    ctx.count("evals");
     let nontrivial = s.chars().count() >= 3;
     if nontrivial {
         if hash_it {
